@@ -379,6 +379,7 @@ class Inliner:
         self.fn = fn
         self.max_depth = max_depth
         self.defs = {}
+        self.stores = []  # (subscript/attribute target, value expression) incl. elements of tuple unpacking as `<value>[i]`
         self.params = set()
         if isinstance(fn, (ast.FunctionDef, ast.AsyncFunctionDef)):
             a = fn.args
@@ -408,6 +409,8 @@ class Inliner:
                 self._kill(st.target)
 
     def _bind(self, t, value):
+        if isinstance(t, (ast.Subscript, ast.Attribute)):
+            self.stores.append((t, value))
         if isinstance(t, ast.Name):
             self.defs.setdefault(t.id, []).append(value)
         elif isinstance(t, (ast.Tuple, ast.List)):
@@ -444,6 +447,10 @@ class Inliner:
 
             def visit_Lambda(self, n):
                 return n
+
+            def visit_Subscript(self, n):
+                n = self.generic_visit(n)
+                return fold_index(n)
 
         return T().visit(_strip_parents(e))
 
@@ -490,6 +497,29 @@ class Inliner:
         finally:
             self.defs.update(saved)
         return out
+
+
+def fold_index(n):
+    """`(a, b, c)[1]` -> `b`;  `tuple(X for _ in range(k))[i]` / `[X for _ in range(k)][i]` -> `X` when X does not use the loop variable"""
+    if not (isinstance(n, ast.Subscript) and isinstance(n.slice, ast.Constant) and isinstance(n.slice.value, int) and not isinstance(n.slice.value, bool)):
+        return n
+    i, v = n.slice.value, n.value
+    if isinstance(v, (ast.Tuple, ast.List)) and not any(isinstance(x, ast.Starred) for x in v.elts) and -len(v.elts) <= i < len(v.elts):
+        return v.elts[i]
+    comp = None
+    if isinstance(v, ast.Call) and isinstance(v.func, ast.Name) and v.func.id in ("tuple", "list") and len(v.args) == 1 and not v.keywords \
+            and isinstance(v.args[0], (ast.GeneratorExp, ast.ListComp)):
+        comp = v.args[0]
+    elif isinstance(v, ast.ListComp):
+        comp = v
+    if comp is not None and len(comp.generators) == 1 and not comp.generators[0].ifs and isinstance(comp.generators[0].target, ast.Name):
+        g = comp.generators[0]
+        it = g.iter
+        if isinstance(it, ast.Call) and isinstance(it.func, ast.Name) and it.func.id == "range" and len(it.args) == 1 and isinstance(it.args[0], ast.Constant) \
+                and isinstance(it.args[0].value, int) and 0 <= i < it.args[0].value \
+                and not any(isinstance(x, ast.Name) and x.id == g.target.id for x in ast.walk(comp.elt)):
+            return comp.elt
+    return n
 
 
 def _strip_parents(e):
